@@ -23,7 +23,7 @@ Settings == {
   S("zstd_implementation", "zstd_implementation", "BAZEL_REMOTE_ZSTD_IMPLEMENTATION", <<"zstd_implementation">>, "string", "cgo", "go"),
   S("http_address", "http_address", "BAZEL_REMOTE_HTTP_ADDRESS", <<"http_address">>, "string", "127.0.0.1:8181", "unix:///tmp/verif-http.sock"),
   S("grpc_address", "grpc_address", "BAZEL_REMOTE_GRPC_ADDRESS", <<"grpc_address">>, "string", "127.0.0.1:9191", "none"),
-  S("profile_address", "profile_address", "BAZEL_REMOTE_PROFILE_ADDRESS", <<"profile_address">>, "string", "127.0.0.1:6060", "localhost:6161"),
+  S("profile_address", "profile_address", "BAZEL_REMOTE_PROFILE_ADDRESS", <<"profile_address">>, "string", "127.0.0.1:6060", "none"),   \* 'none' = disabled explicitly (README)
   S("http_read_timeout", "http_read_timeout", "BAZEL_REMOTE_HTTP_READ_TIMEOUT", <<"http_read_timeout">>, "duration", "15s", "2m0s"),
   S("http_write_timeout", "http_write_timeout", "BAZEL_REMOTE_HTTP_WRITE_TIMEOUT", <<"http_write_timeout">>, "duration", "20s", "1m30s"),
   S("htpasswd_file", "htpasswd_file", "BAZEL_REMOTE_HTPASSWD_FILE", <<"htpasswd_file">>, "string", "/etc/bazel-remote/htpasswd", "/tmp/pw"),
@@ -54,7 +54,9 @@ Settings == {
 Deprecated == {
   S("port", "port", "BAZEL_REMOTE_PORT", <<"port">>, "int", "8282", "8383"),
   S("grpc_port", "grpc_port", "BAZEL_REMOTE_GRPC_PORT", <<"grpc_port">>, "int", "9292", "9393"),
-  S("host", "host", "BAZEL_REMOTE_HOST", <<"host">>, "string", "127.0.0.1", "::1")   \* a name and an IPv6 literal: the address is host:port resp. [host]:port
+  S("host", "host", "BAZEL_REMOTE_HOST", <<"host">>, "string", "127.0.0.1", "::1"),   \* a name and an IPv6 literal: the address is host:port resp. [host]:port
+  S("profile_port", "profile_port", "BAZEL_REMOTE_PROFILE_PORT", <<"profile_port">>, "int", "6262", "6363"),
+  S("profile_host", "profile_host", "BAZEL_REMOTE_PROFILE_HOST", <<"profile_host">>, "string", "localhost", "::1")
 }
 
 \* dependent settings that only mean something next to the setting that switches their group on
